@@ -119,7 +119,7 @@ class DocGen:
         if rng.random() < 0.15:
             out["patternProperties"] = {
                 pat: sub()
-                for pat in rng.sample(["^x_", "_id$", "^[a-z]+$", "\\d"], rng.randint(1, 3))
+                for pat in rng.sample(["^x_", "_id$", "^[a-z]+$", "\\d", "[[:alpha:]]"], rng.randint(1, 3))
             }
         if rng.random() < 0.12:
             names = list(props)
@@ -131,8 +131,8 @@ class DocGen:
             out["propertyNames"] = {"maxLength": rng.randint(3, 9)}
         if rng.random() < 0.08:
             out["minProperties"] = rng.randint(0, 2)
-        if rng.random() < 0.1:
-            out["description"] = "some description"
+        if rng.random() < 0.12:
+            out["description"] = rng.choice(["some description", "café ☕ Größe", "описание"])
         return out
 
     def composition(self, depth):
@@ -370,6 +370,14 @@ def child_env(config):
         env["PYTHONOPTIMIZE"] = str(config["optimize"])
     if config.get("tz"):
         env["TZ"] = config["tz"]
+    if config.get("pywarnings"):
+        env["PYTHONWARNINGS"] = config["pywarnings"]
+    if config.get("locale") == "C":
+        # a process without a UTF-8 locale
+        env["LANG"] = "C"
+        env["LC_ALL"] = "C"
+        env["PYTHONUTF8"] = "0"
+        env["PYTHONCOERCECLOCALE"] = "0"
     return env
 
 
@@ -408,6 +416,7 @@ def choose_configs(seed, count):
             # the only clock-like input a process has without a fake-time
             # library: its time zone (UTC+14 and UTC-12 never share a date)
             "tz": rng.choice(["", "UTC", "LINT-14", "BIT12"]),
+            "pywarnings": rng.choice(["", "", "error::FutureWarning"]),
             # what else the process has done is part of its configuration:
             # each interpreter processes its batch in its own order
             "order": rng.randint(1, 10**6),
@@ -418,6 +427,8 @@ def choose_configs(seed, count):
     if len(configs) >= 3:
         configs[1]["tz"] = "LINT-14"
         configs[2]["tz"] = "BIT12"
+        configs[1]["pywarnings"] = "error::FutureWarning"
+        configs[2]["pywarnings"] = ""
     return configs, len(orders)
 
 
@@ -451,6 +462,25 @@ def run_cli(config, uri):
 # --------------------------------------------------------------------------
 # comparison, minimisation, replay
 # --------------------------------------------------------------------------
+
+
+def run_cli_output(config, uri):
+    """`python -m statham --input <uri> --output <file>` in a process without
+    a UTF-8 locale for odd configurations: the bytes of the written file."""
+    outdir = tempfile.mkdtemp(prefix="c09out_")
+    try:
+        target = os.path.join(outdir, "models.py")
+        cmd = setarch_prefix() + [PYTHON, "-m", "statham", "--input", uri, "--output", target]
+        env = child_env(dict(config, locale="C" if config.get("_cli_index", 0) % 2 else ""))
+        env["PYTHONPATH"] = common.REPO
+        proc = subprocess.run(cmd, env=env, capture_output=True, timeout=300, cwd="/")
+        if proc.returncode != 0 or not os.path.exists(target):
+            tail = proc.stderr.decode("utf8", "replace").strip().splitlines()
+            return b"EXC:" + (tail[-1] if tail else "").split(":")[0].split(".")[-1].encode()
+        with open(target, "rb") as fh:
+            return fh.read()
+    finally:
+        shutil.rmtree(outdir, ignore_errors=True)
 
 
 def disagreements(results):
@@ -666,8 +696,20 @@ def _check(tier, seed, n_docs, configs, orders_reachable, n_cli, n_cli_conf, wor
     cli_tasks = [(conf, os.path.join(workdir, f"{d[0]}.json")) for d in cli_docs for conf in configs[:n_cli_conf]]
     with ThreadPoolExecutor(16) as pool:
         cli_out = list(pool.map(lambda t: run_cli(t[0], t[1]), cli_tasks))
+    # the --output path: file bytes, half of the processes without a UTF-8 locale
+    out_tasks = [
+        (dict(conf, _cli_index=cidx), os.path.join(workdir, f"{d[0]}.json"))
+        for d in cli_docs
+        for cidx, conf in enumerate(configs[:n_cli_conf])
+    ]
+    with ThreadPoolExecutor(16) as pool:
+        out_files = list(pool.map(lambda t: run_cli_output(t[0], t[1]), out_tasks))
     cli_bad = []
     for didx, d in enumerate(cli_docs):
+        files_d = out_files[didx * n_cli_conf : (didx + 1) * n_cli_conf]
+        if any(f != files_d[0] for f in files_d[1:]) and not any(f.startswith(b"EXC:") for f in files_d):
+            cli_bad.append(d[0])
+            bad.setdefault(d[0], []).append("cli_output_file")
         outs_d = cli_out[didx * n_cli_conf : (didx + 1) * n_cli_conf]
         if any(o != outs_d[0] for o in outs_d[1:]):
             cli_bad.append(d[0])
@@ -824,7 +866,7 @@ def _check(tier, seed, n_docs, configs, orders_reachable, n_cli, n_cli_conf, wor
         },
         "components": {
             "real": ["statham/* from /repo working tree", "json_ref_dict", "CPython interpreters (one per configuration)", "python -m statham command line"],
-            "seam": ["PYTHONHASHSEED", "setarch -R (ASLR off)", "environment padding", "PYTHONMALLOC", "PYTHONOPTIMIZE", "TZ"],
+            "seam": ["PYTHONHASHSEED", "setarch -R (ASLR off)", "environment padding", "PYTHONMALLOC", "PYTHONOPTIMIZE", "TZ", "PYTHONWARNINGS=error::FutureWarning", "non-UTF-8 locale for --output runs"],
             "stub": [],
         },
         "determinism_sample": {"same_configuration_twice_identical": det_ok},
